@@ -62,7 +62,7 @@ class Check(BaseCheck):
         fails = []
         rng = gen.rng_for(self.seed, "c18c")
         # projection pair
-        for k in range(6 if self.quick else 60):
+        for k in range(6 if self.quick else 600):
             u = rng.normal(size=(int(rng.integers(3, 9)), 3)); u /= np.linalg.norm(u, axis=1)[:, None]
             w = rng.normal(size=len(u)) + 1j * rng.normal(size=len(u))
             stats.case("stereo%d" % k, cls="stereographic", sample=dict(points=len(u)) if k == 0 else None)
@@ -74,7 +74,7 @@ class Check(BaseCheck):
             if core.relerr(conformal.inverse_stereographic(w), ri.v3s()) > 1e-12:
                 fails.append(core.Failure("correspondence", "inverse_stereographic vs model", "", dict(kind="stereo", w=np.column_stack([w.real, w.imag]))))
         # beltrami + linear beltrami solver
-        for k in range(8 if self.quick else 80):
+        for k in range(8 if self.quick else 800):
             v, t = planar_mesh(rng)
             a = complex(rng.normal(), rng.normal()) * float(rng.choice([1.0, 1.0, 1e-7, 1e4]))      # the coefficient is scale free
             b = 0.6 * abs(a) * rng.uniform(0, 1) * np.exp(1j * rng.uniform(0, 6.28))
@@ -119,7 +119,7 @@ class Check(BaseCheck):
             if (res[0] == "err" and res[1] == "ValueError") != r.startswith("err ValueError"):
                 fails.append(core.Failure("correspondence", "Euler guard vs model", "%s euler %d: impl %s model %s" % (nm, e, res[:2], r)))
         # whole map on a genus-0 mesh: landmark count, unit norm, Moebius step
-        for case in genus0(self.seed + 141, 2 if self.quick else 12):
+        for case in genus0(self.seed + 141, 2 if self.quick else 40):
             v, t = case["v"], case["t"]
             gen.use(case)
             with core.quiet():
